@@ -93,3 +93,9 @@ pub static mut RING_VN: [[u64; 2]; 5] = [[0; 2]; 5];
 pub static mut RING_KEY: u64 = 0;
 pub fn ring_vnode(node: redis_sim::replication::lattice::ReplicaId, idx: u32) -> u64 { unsafe { RING_VN[(node.0 as usize) % 5][(idx as usize) & 1] } }
 pub fn ring_key(_k: &str) -> u64 { unsafe { RING_KEY } }
+
+/// `pointer::align_offset` may return usize::MAX for any input (documented contract). Kani otherwise computes it
+/// from a SYMBOLIC address, which forks every word-at-a-time fast path in core (UTF-8 validation, memchr-style
+/// scans, str comparison) on alignment: from_utf8 + parse::<i64> on two concrete bytes costs 17 s without this
+/// stub and 0.5 s with it.
+pub unsafe fn no_align_offset<T>(_p: *const T, _a: usize) -> usize { usize::MAX }
